@@ -344,8 +344,8 @@ theorem lin_recovers_from_circuit [Field K] (per : List (List (List K × K))) (A
   rw [← hd]
 
 /-- C09.8c the QST instance, hypotheses stated on the model's own functions: dictionary from `qstCoeffs`, data from
-`qstCircuit` on the state built from `var₀`. (POVMT / QPT / QMPT are the same one-liner from `lin_recovers_from_circuit`
-and the corresponding `*_affine` theorem of C08.) -/
+`qstCircuit` on the state built from `var₀`. (POVMT / QPT / QMPT: `povmt_object_recovered`, `qpt_object_recovered`,
+`qmpt_object_recovered` below.) -/
 theorem qst_lin_recovers [Field K] (flag : Bool) (r : K) (povms : List (List (List K))) (scheds : List Nat)
     (cs : List (QM.C08.Coeff K)) (A : Mat K m n) (b : Vec K m) (G : Mat K n n)
     (hcs : QM.C08.qstCoeffs flag r povms scheds = some cs)
@@ -396,7 +396,84 @@ theorem qst_object_recovered [Field K] (flag : Bool) (r : K) (d2 : Nat) (povms :
       .ok [QM.C08.stateOf flag r var0.toList] := by
   rw [qst_lin_recovers flag r povms scheds cs A b G hcs hA hb hc var0 dists hd f hf]; rfl
 
+/-- C09.9d the same for POVM, process and measurement-process tomography (and QST again), in one statement: whenever
+the dictionary entries predict the circuits of all schedules on the object built from `var₀` — the conclusion of
+`QM.C08.qst_affine / povmt_affine / qpt_affine / qmpt_affine` — and the data are those circuit distributions,
+`estimated_qoperation` is the object built from `var₀`. -/
+theorem object_recovered_from_circuit [Field K] (kind : Kind) (flag : Bool) (r : K) (d2 mOut : Nat)
+    (per : List (List (List K × K))) (A : Mat K m n) (b : Vec K m) (G : Mat K n n)
+    (hA : rowsOf A = QM.C08.matA (QM.C08.mkCoeffs per)) (hb : b.toList = QM.C08.vecB (QM.C08.mkCoeffs per))
+    (hc : Contract G A) (var0 : Vec K n) (circuit : Option (List (List K))) (dists : List (List K))
+    (haff : circuit = some (per.map fun rows => rows.map (QM.C08.rowVal var0.toList)))
+    (hd : circuit = some dists) (f : Vec K m) (hf : f.toList = dists.flatten) :
+    estimatedQoperation kind flag r d2 mOut [estOne (aDdag G A) b f] = .ok (objOf kind flag r d2 mOut var0.toList) := by
+  rw [lin_recovers_from_circuit per A b G hA hb hc var0 circuit dists haff hd f hf]; rfl
+
+/-- C09.9e POVM tomography end to end: dictionary from `povmtCoeffs`, data = `povmtCircuit` on the POVM built from `var₀`
+⇒ the returned POVM is the one built from `var₀`. -/
+theorem povmt_object_recovered [Field K] (flag : Bool) (r : K) (d2 mOut : Nat) (states : List (List K))
+    (scheds : List Nat) (cs : List (QM.C08.Coeff K)) (A : Mat K m n) (b : Vec K m) (G : Mat K n n)
+    (hm : 0 < mOut) (hstates : ∀ rho ∈ states, rho.length = d2)
+    (hcs : QM.C08.povmtCoeffs flag r mOut states scheds = some cs)
+    (hA : rowsOf A = QM.C08.matA cs) (hb : b.toList = QM.C08.vecB cs) (hc : Contract G A)
+    (var0 : Vec K n) (hvar : n = (if flag then mOut - 1 else mOut) * d2) (dists : List (List K))
+    (hd : QM.C08.povmtCircuit flag r d2 mOut states scheds var0.toList = some dists)
+    (f : Vec K m) (hf : f.toList = dists.flatten) :
+    estimatedQoperation .povm flag r d2 mOut [estOne (aDdag G A) b f] =
+      .ok (QM.C08.povmOf flag r d2 mOut var0.toList) := by
+  obtain ⟨per, rfl, haff⟩ := QM.C08.povmt_affine flag r d2 mOut states scheds cs var0.toList hm hstates
+    (by simp [hvar]) hcs
+  exact object_recovered_from_circuit .povm flag r d2 mOut per A b G hA hb hc var0 _ dists haff hd f hf
+
+/-- C09.9f process tomography end to end. -/
+theorem qpt_object_recovered [Field K] (flag : Bool) (r : K) (d2 : Nat) (states : List (List K))
+    (povms : List (List (List K))) (scheds : List (Nat × Nat)) (cs : List (QM.C08.Coeff K)) (A : Mat K m n)
+    (b : Vec K m) (G : Mat K n n) (hstates : ∀ rho ∈ states, rho.length = d2)
+    (hcs : QM.C08.qptCoeffs flag states povms scheds = some cs)
+    (hA : rowsOf A = QM.C08.matA cs) (hb : b.toList = QM.C08.vecB cs) (hc : Contract G A)
+    (var0 : Vec K n) (hvar : n = (if flag then d2 - 1 else d2) * d2) (dists : List (List K))
+    (hd : QM.C08.qptCircuit flag d2 states povms scheds var0.toList = some dists)
+    (f : Vec K m) (hf : f.toList = dists.flatten) :
+    estimatedQoperation .gate flag r d2 1 [estOne (aDdag G A) b f] = .ok (QM.C08.gateOf flag d2 var0.toList) := by
+  obtain ⟨per, rfl, haff⟩ := QM.C08.qpt_affine flag d2 states povms scheds cs var0.toList hstates (by simp [hvar]) hcs
+  exact object_recovered_from_circuit .gate flag r d2 1 per A b G hA hb hc var0 _ dists haff hd f hf
+
+/-- C09.9g measurement-process tomography end to end (the object is returned as the concatenated rows of its gates). -/
+theorem qmpt_object_recovered [Field K] (flag : Bool) (r : K) (d2 mOut : Nat) (states : List (List K))
+    (povms : List (List (List K))) (scheds : List (Nat × Nat)) (cs : List (QM.C08.Coeff K)) (A : Mat K m n)
+    (b : Vec K m) (G : Mat K n n) (hm : 0 < mOut) (hd2 : 0 < d2) (hstates : ∀ rho ∈ states, rho.length = d2)
+    (hpovms : ∀ povm ∈ povms, ∀ e ∈ povm, e.length = d2)
+    (hcs : QM.C08.qmptCoeffs flag mOut states povms scheds = some cs)
+    (hA : rowsOf A = QM.C08.matA cs) (hb : b.toList = QM.C08.vecB cs) (hc : Contract G A)
+    (var0 : Vec K n)
+    (hvar : n = if flag then (mOut - 1) * (d2 * d2) + (d2 - 1) * d2 else mOut * (d2 * d2))
+    (dists : List (List K))
+    (hd : QM.C08.qmptCircuit flag d2 mOut states povms scheds var0.toList = some dists)
+    (f : Vec K m) (hf : f.toList = dists.flatten) :
+    estimatedQoperation .mprocess flag r d2 mOut [estOne (aDdag G A) b f] =
+      .ok (QM.C08.mprocessOf flag d2 mOut var0.toList).flatten := by
+  obtain ⟨per, rfl, haff⟩ := QM.C08.qmpt_affine flag d2 mOut states povms scheds cs var0.toList hm hd2 hstates
+    hpovms (by simp [hvar]) hcs
+  exact object_recovered_from_circuit .mprocess flag r d2 mOut per A b G hA hb hc var0 _ dists haff hd f hf
+
 /-! ## non-vacuity: concrete instances of the hypotheses -/
+
+/-- `lsqCert` with a positive tolerance accepts a slightly perturbed vector (and rejects it at tolerance 0) -/
+example : lsqCert (#v[#v[1, 0], #v[0, 1], #v[1, 1]] : Mat Rat 3 2) (#v[0, 0, 1/2] : Vec Rat 3)
+    (#v[1/4, 3/4, 3/2] : Vec Rat 3) (#v[1/4 + 1/1000, 3/4] : Vec Rat 2) (1/100) = true ∧
+  lsqCert (#v[#v[1, 0], #v[0, 1], #v[1, 1]] : Mat Rat 3 2) (#v[0, 0, 1/2] : Vec Rat 3)
+    (#v[1/4, 3/4, 3/2] : Vec Rat 3) (#v[1/4 + 1/1000, 3/4] : Vec Rat 2) 0 = false := by decide +kernel
+
+/-- two sequences that differ only in the attached counts (hypothesis of `estSeq_ignores_counts`) -/
+example : ([[(10, [(1 : Rat)/4]), (0, [3/4]), (7, [3/2])]].map fun ds => ds.map (·.2)) =
+    ([[(1, [(1 : Rat)/4]), (1, [3/4]), (1000000, [3/2])]].map fun ds => ds.map (·.2)) := by decide +kernel
+
+/-- POVMT toy instance (`d2 = 2`, two outcomes, flag off): hypotheses of `povmt_object_recovered` -/
+example : QM.C08.povmtCoeffs false (1 : Rat) 2 [[1, 0], [0, 1]] [0, 1] =
+    some (QM.C08.mkCoeffs [[([1, 0, 0, 0], 0), ([0, 0, 1, 0], 0)], [([0, 1, 0, 0], 0), ([0, 0, 0, 1], 0)]]) := by
+  decide +kernel
+example : QM.C08.povmtCircuit false (1 : Rat) 2 2 [[1, 0], [0, 1]] [0, 1] (#v[1/3, 1/4, 2/3, 3/4] : Vec Rat 4).toList =
+    some [[1/3, 2/3], [1/4, 3/4]] := by decide +kernel
 
 example : estimatedQoperation (K := Rat) .state true 2 4 1 [#v[1/4, 3/4, 0]] = .ok [[1/2, 1/4, 3/4, 0]] := by
   decide +kernel
